@@ -351,7 +351,7 @@ func (e *Engine) Execute(p *sim.Plan, keepLog bool) (res *sim.RunResult) {
 		if free() {
 			return
 		}
-		deadline := time.Now().Add(2 * time.Second)
+		deadline := time.Now().Add(10 * time.Second)
 		for !free() {
 			if time.Now().After(deadline) {
 				leakMu.Lock()
